@@ -463,7 +463,7 @@ static void b_build_oversize(R_t *r) {
 }
 /* destroy-task arrays are ordinary blocks of the resource: they live inside pages; here inside the newest recorded page */
 static void b_build_tasks(R_t *r) {
-  unsigned n = nondet_uint(); __CPROVER_assume(n <= 2);
+  unsigned n = nondet_uint(); __CPROVER_assume(n <= B_MAXARR);
   r->_last_destroy_task_array = 0; r->_last_destroy_task_pointer = (DT_t *)8;
   char *host = (char *)malloc(2 * sizeof(DA_t));   /* stands for page memory holding the two blocks */
   unsigned total = 0; unsigned firsts[2];
